@@ -5,6 +5,7 @@ import (
 	"encoding/hex"
 	"encoding/json"
 	"fmt"
+	"os"
 	"sort"
 	"strings"
 	"time"
@@ -336,3 +337,5 @@ func mustCid(s string) cid.Cid {
 type operationT = operation.Operation
 
 func jsonUnmarshal(b []byte, v interface{}) error { return json.Unmarshal(b, v) }
+
+func raceBuild() bool { return os.Getenv("VERIF_RACE") == "1" }
